@@ -7,7 +7,7 @@ from vlib import coq, sfgen
 
 PROP = "C18"
 LEVEL = "proof"
-COQ_TARGETS = ["C18/Model.vo", "C18/Proofs.vo"]
+COQ_TARGETS = ["Base/Reorder.vo", "C18/Model.vo", "C18/Proofs.vo"]
 PROPERTIES_FILE = "Properties/C18.v"
 ALLOWED_AXIOMS = set()
 RULE = ("pairs (p, q): q derived from a random Gaussian program p by identity / prefix / extension / dagger flip / "
